@@ -140,4 +140,141 @@ def callOK (ev : List Nat) (c : Nat × Nat) : Bool :=
 def holdsEv (ev : List Nat) (A : Nat → Nat → Bool) (gs : List (List Nat)) (cs : List (Nat × Nat)) : Bool :=
   gs.isPerm (groupEv ev A) && cs.all (callOK ev)
 
+/-! ### histories: several calls in one process on shared event objects (follow-up R3-C13)
+
+  Between two calls the caller may edit an event in place / replace it by an edited copy under the same
+  uuid (`edit`), or change the state of the comparison callable (`setParam`).  The comparison callable
+  reads the *content* of the two events: `R p c₁ c₂` with its current parameter `p`.  The function under
+  test is pure, so a call leaves no trace: `World.apply w (.call _) = w`. -/
+
+/-- an event as the caller sees it: (uuid number, content key) -/
+abbrev Tag := Nat × Nat
+
+def tagAt (tags : List Tag) (i : Nat) : Tag := tags.getD i (0, 0)
+
+/-- the comparison on positions, for a callable that reads the events' content -/
+def adjTagged (tags : List Tag) (R : Nat → Nat → Nat → Bool) (p : Nat) : Nat → Nat → Bool :=
+  fun i j => R p (tagAt tags i).2 (tagAt tags j).2
+
+/-- the groups as lists of tags -/
+def groupTagged (tags : List Tag) (R : Nat → Nat → Nat → Bool) (p : Nat) : List (List Tag) :=
+  (group tags.length (adjTagged tags R p)).map fun g => g.map (tagAt tags)
+
+/-- the calls as pairs of tags -/
+def callsTagged (tags : List Tag) : List (Tag × Tag) :=
+  (pairs tags.length).map fun q => (tagAt tags q.1, tagAt tags q.2)
+
+/-- a call on tags `(a, b)` is legitimate iff `a` and `b` stand at two different positions -/
+def callOKT (tags : List Tag) (c : Tag × Tag) : Bool :=
+  (List.range tags.length).any fun i => (List.range tags.length).any fun j =>
+    i != j && tagAt tags i == c.1 && tagAt tags j == c.2
+
+/-- the property on one observed call of a history -/
+def holdsTagged (tags : List Tag) (R : Nat → Nat → Nat → Bool) (p : Nat) (gs : List (List Tag))
+    (cs : List (Tag × Tag)) : Bool :=
+  gs.isPerm (groupTagged tags R p) && cs.all (callOKT tags)
+
+/-- what the calls of a history can depend on: the content key every object carries now and the
+    current parameter of the comparison callable -/
+structure World where
+  content : List Nat
+  param : Nat
+deriving Repr, DecidableEq
+
+inductive HStep where
+  /-- object `o` now carries content `c` (assignment in place, or a replaced copy under the same uuid) -/
+  | edit (o c : Nat)
+  /-- the comparison callable's internal parameter becomes `p` (same callable object) -/
+  | setParam (p : Nat)
+  /-- `group_sound_events([objects…], callable)` -/
+  | call (objs : List Nat)
+deriving Repr, DecidableEq
+
+def HStep.isCall : HStep → Bool
+  | .call _ => true
+  | _ => false
+
+def World.apply (w : World) : HStep → World
+  | .edit o c => { w with content := w.content.set o c }
+  | .setParam p => { w with param := p }
+  | .call _ => w
+
+def worldAfter (w : World) (steps : List HStep) : World := steps.foldl World.apply w
+
+/-- the tags of the listed objects in world `w`; `uu` is the (fixed) uuid number of every object -/
+def tagsOf (uu : List Nat) (w : World) (objs : List Nat) : List Tag :=
+  objs.map fun o => (uu.getD o 0, w.content.getD o 0)
+
+/-- one call in world `w` -/
+def callOut (R : Nat → Nat → Nat → Bool) (uu : List Nat) (w : World) (objs : List Nat) : List (List Tag) :=
+  groupTagged (tagsOf uu w objs) R w.param
+
+/-- the calls of a history, each with the world it is made in -/
+def callWorlds : World → List HStep → List (World × List Nat)
+  | _, [] => []
+  | w, .call objs :: rest => (w, objs) :: callWorlds w rest
+  | w, .edit o c :: rest => callWorlds (w.apply (.edit o c)) rest
+  | w, .setParam p :: rest => callWorlds (w.apply (.setParam p)) rest
+
+/-- the results of the calls of a history, in order -/
+def runHistory (R : Nat → Nat → Nat → Bool) (uu : List Nat) (w : World) (steps : List HStep) :
+    List (List (List Tag)) :=
+  (callWorlds w steps).map fun c => callOut R uu c.1 c.2
+
+/-- the monitor of a whole history: one verdict per call (observed groups, observed comparison calls) -/
+def checkHist (R : Nat → Nat → Nat → Bool) (uu : List Nat) (w : World) (steps : List HStep)
+    (outs : List (List (List Tag) × List (Tag × Tag))) : List Bool :=
+  List.zipWith (fun c o => holdsTagged (tagsOf uu c.1 c.2) R c.1.param o.1 o.2) (callWorlds w steps) outs
+
+/-! ### how arguments reach the parameters (follow-up R3-C13)
+
+  A declarative model of Python's argument binding, enough for calls with `k` positional arguments
+  followed by keyword arguments named `K`. -/
+
+inductive PKind where
+  | posOnly | posOrKw | varPos | kwOnly | varKw
+deriving DecidableEq, Repr
+
+structure Param where
+  name : String
+  kind : PKind
+  hasDefault : Bool
+deriving DecidableEq, Repr
+
+/-- where a parameter's value comes from -/
+inductive Src where
+  | pos (i : Nat) | kw (i : Nat)
+deriving DecidableEq, Repr
+
+def posNames (sig : List Param) : List String :=
+  ((sig.takeWhile fun p => p.kind != .varPos).filter fun p => p.kind == .posOnly || p.kind == .posOrKw).map (·.name)
+
+def kwNames (sig : List Param) : List String :=
+  (sig.filter fun p => p.kind == .posOrKw || p.kind == .kwOnly).map (·.name)
+
+def enumFrom {α} : Nat → List α → List (α × Nat)
+  | _, [] => []
+  | i, x :: xs => (x, i) :: enumFrom (i + 1) xs
+
+/-- `f(v₀, …, v_{k-1}, K₀=…, K₁=…)`: `none` is Python's `TypeError` (too many positional arguments,
+    several values for one parameter, an unexpected keyword, a missing required argument) -/
+def bindArgs (sig : List Param) (k : Nat) (K : List String) : Option (List (String × Src)) :=
+  let byPos := (posNames sig).take k
+  if (posNames sig).length < k && !(sig.any fun p => p.kind == .varPos) then none
+  else if K.any fun n => byPos.contains n then none
+  else if !(sig.any fun p => p.kind == .varKw) && K.any fun n => !(kwNames sig).contains n then none
+  else if sig.any fun p => !p.hasDefault && p.kind != .varPos && p.kind != .varKw
+      && !byPos.contains p.name && !K.contains p.name then none
+  else some (((enumFrom 0 byPos).map fun x => (x.1, Src.pos x.2)) ++ (enumFrom 0 K).map fun x => (x.1, Src.kw x.2))
+
+/-- the signature the property's calls rely on: `sound_events`, then `comparison_fn`, both usable by
+    position and by name, without defaults; whatever follows is optional and has another name -/
+def sigOK (sig : List Param) : Bool :=
+  match sig with
+  | a :: b :: rest =>
+    a == ⟨"sound_events", .posOrKw, false⟩ && b == ⟨"comparison_fn", .posOrKw, false⟩ &&
+      rest.all fun p => (p.hasDefault || p.kind == .varPos || p.kind == .varKw)
+        && p.name != "sound_events" && p.name != "comparison_fn"
+  | _ => false
+
 end SE.Grouping
